@@ -222,7 +222,7 @@ func (w *World) projectOne() map[string]interface{} {
 	out["mem"] = w.projectMem()
 	origOk, _ := w.UserOwnedEqual()
 	rs := append([]int{}, w.Ghost.ReadySteps...)
-	out["ghost"] = map[string]interface{}{"readySteps": rs, "created": w.Ghost.Created, "origOk": origOk, "brEver": w.Ghost.BrEver, "jumpBack": w.Ghost.JumpBack, "lateChange": w.Ghost.LateChange, "disSup": w.Ghost.DisSup, "midSwitch": w.Ghost.MidSwitch, "readyRepl": w.Ghost.ReadyRepl}
+	out["ghost"] = map[string]interface{}{"readySteps": rs, "created": w.Ghost.Created, "origOk": origOk, "brEver": w.Ghost.BrEver, "jumpBack": w.Ghost.JumpBack, "lateChange": w.Ghost.LateChange, "disSup": w.Ghost.DisSup, "supBack": w.Ghost.SupBack, "midSwitch": w.Ghost.MidSwitch, "readyRepl": w.Ghost.ReadyRepl}
 	out["quiet"] = w.WL.Quiescent(w) && !w.gcPending()
 	// wake-up state of the two work queues; stuck: nothing will ever run again without a user action
 	stuck := !w.Q.RoPending && !w.Q.BrPending && !w.Q.RoTimer && !w.Q.BrTimer && w.WL.Quiescent(w) && !w.gcPending() && !w.tickUseful()
@@ -315,7 +315,7 @@ func (w *World) projectNet() map[string]interface{} {
 	m := map[string]interface{}{
 		"hasSvc": false, "stableSel": 0, "canarySvc": false, "canarySel": 0, "canaryOwned": false,
 		"ing": false, "ingWeight": -1, "ingMatch": "", "ingBackendOk": true, "ingPaths": 0,
-		"route": false, "rtStableW": -1, "rtCanaryW": -1, "rtGenRules": 0, "rtRules": 0, "rtOtherOk": true,
+		"route": false, "rtStableW": -1, "rtCanaryW": -1, "rtGenRules": 0, "rtRules": 0, "rtOtherOk": true, "rtMatch": "",
 	}
 	m["provIngress"] = w.ingressClass() != ""
 	m["provGateway"] = w.hasProvider("gateway")
@@ -383,6 +383,22 @@ func (w *World) projectNet() map[string]interface{} {
 				}
 			case canary != nil:
 				gen++
+				// what the generated canary rule matches on (the step's match kind)
+				if len(r.Matches) > 0 {
+					f := r.Matches[0]
+					switch {
+					case len(f.QueryParams) > 0:
+						m["rtMatch"] = "query"
+					case len(f.Headers) > 0 && string(f.Headers[0].Name) == "canary-by-cookie":
+						m["rtMatch"] = "cookie"
+					case len(f.Headers) > 0 && len(r.Matches) >= 2:
+						m["rtMatch"] = "header2"
+					case len(f.Headers) > 0:
+						m["rtMatch"] = "header"
+					case f.Path != nil && f.Path.Value != nil && *f.Path.Value == "/canary":
+						m["rtMatch"] = "path"
+					}
+				}
 			}
 		}
 		m["rtGenRules"] = gen
